@@ -440,9 +440,9 @@ fn guts_case(args: &Args, idx: u64, rng: &mut Rng, rep: &mut Report) {
 }
 
 pub fn run(args: &Args) -> Report {
-    let n_traits = args.n(12_000, 400_000);
-    let n_hmac = args.n(2_000, 50_000);
-    let n_guts = args.n(60_000, 2_000_000);
+    let n_traits = args.n(12_000, 3_000_000);
+    let n_hmac = args.n(2_000, 300_000);
+    let n_guts = args.n(60_000, 20_000_000);
     run::run_cases(args, 16, n_traits + n_hmac + n_guts, |idx, rng, rep| {
         if idx < n_traits {
             trait_case(args, idx, rng, rep);
